@@ -422,7 +422,8 @@ def gen_roundtrip(rng, n, k, big):
 
 
 CARRIERS = ["tempfile", "fdopen", "fd_open", "pipe", "spooled_mem", "spooled_disk", "noname", "bytesname", "unbuffered",
-            "bytesio"]
+            "bytesio", "zlibfile_w", "gzipfile_w", "zlibfile_r", "gzipfile_r"]
+JOBLIB_FILE_CARRIERS = ("zlibfile_w", "gzipfile_w", "zlibfile_r", "gzipfile_r")
 N_TINY = 13
 
 
@@ -433,7 +434,7 @@ def gen_tiny(k):
     cases = []
     for t in range(N_TINY):
         for proto in (0, 1, 2, 3, 4, 5):
-            for car in ("bytesio", "noname", "unbuffered", "spooled_mem", "tempfile", "pipe"):
+            for car in ("bytesio", "noname", "unbuffered", "spooled_mem", "tempfile", "pipe") + JOBLIB_FILE_CARRIERS:
                 cases.append({"mode": "roundtrip", "seed": 0, "size": {"tiny": t}, "proto": proto,
                               "form": {"t": "int", "v": 0}, "carrier": car})
         for e in k["registry"]:
@@ -806,6 +807,8 @@ def run(ctx):
             c, r = rt[i], rtres[i]
             tspec = {"k": "raw"} if c.get("carrier") else {"k": c["target"]["k"], "name": c["target"].get("name", "")}
             exp = documented(c["form"], tspec, k)
+            if c.get("carrier") in JOBLIB_FILE_CARRIERS:       # the file on disk is the file object's own format
+                exp = ("zlib" if c["carrier"].startswith("zlib") else "gzip", 3)
             want = [] if exp[0] == "plain" else [ord(ch) for ch in exp[0]]
             codec_dist[exp[0]] = codec_dist.get(exp[0], 0) + 1
             if kc != want:
